@@ -311,7 +311,12 @@ class ServiceClass:
                 rsp_status = 0xC311
                 dataset = None
             else:
-                rsp_status, dataset = cast(UserReturnType, result)
+                try:
+                    rsp_status, dataset = cast(UserReturnType, result)
+                except (TypeError, ValueError):
+                    # Not a (status, dataset) pair, validate_status() decides
+                    #   what the response will be
+                    rsp_status, dataset = cast(Any, result), None
 
             # Event handler has aborted or released
             if not self.assoc.is_established:
@@ -1787,7 +1792,12 @@ class QueryRetrieveServiceClass(ServiceClass):
                 rsp_status = 0xC411
                 dataset = None
             else:
-                rsp_status, dataset = cast(UserReturnType, result)
+                try:
+                    rsp_status, dataset = cast(UserReturnType, result)
+                except (TypeError, ValueError):
+                    # Not a (status, dataset) pair, validate_status() decides
+                    #   what the response will be
+                    rsp_status, dataset = cast(Any, result), None
 
             # Event handler has aborted or released - after any yields
             if not self.assoc.is_established:
@@ -2214,7 +2224,12 @@ class QueryRetrieveServiceClass(ServiceClass):
                 rsp_status = 0xC511
                 dataset = None
             else:
-                rsp_status, dataset = cast(UserReturnType, result)
+                try:
+                    rsp_status, dataset = cast(UserReturnType, result)
+                except (TypeError, ValueError):
+                    # Not a (status, dataset) pair, validate_status() decides
+                    #   what the response will be
+                    rsp_status, dataset = cast(Any, result), None
 
             # Event handler has aborted or released - during any status yields
             if not self.assoc.is_established:
